@@ -182,6 +182,35 @@ def r2(repo, res):
     res.floor("C18.R2", "model parameters with a default in Profile.__init__", len(defaults), 25)
     for k in sorted(set(defaults) - set(TYPES)):
         res.note(f"C18.R2: parameter {k} (default {defaults[k]!r}) is not in the documented-type table; its default's type is taken as documented")
+    # the default stated in a parameter's docstring is the default it gets
+    init = repo.func("profile::Profile.__init__")
+    import re as _re
+
+    stated = {}
+    body = init.body
+    for i, st in enumerate(body[:-1]):
+        nxt = body[i + 1]
+        if isinstance(st, ast.Assign) and isinstance(st.targets[0], ast.Attribute) and isinstance(nxt, ast.Expr) and isinstance(nxt.value, ast.Constant) \
+                and isinstance(nxt.value.value, str):
+            m_ = _re.search(r"Default:\s*`?([^\s`(]+)", nxt.value.value)
+            if m_:
+                stated[st.targets[0].attr] = m_.group(1).rstrip(".,").replace(",", "")
+    mism = []
+    for prm, txt in sorted(stated.items()):
+        if prm not in defaults:
+            continue
+        dv = defaults[prm]
+        try:
+            doc = {"True": True, "False": False}.get(txt, None)
+            if doc is None:
+                doc = float(txt) if isinstance(dv, (int, float)) and not isinstance(dv, bool) else txt
+            if (isinstance(doc, float) and abs(doc - float(dv)) > 1e-12) or (not isinstance(doc, float) and doc != dv):
+                mism.append(f"{prm}: default {dv!r}, docstring says {txt}")
+        except ValueError:
+            continue
+    res.ob("C18.R2", uf, "documented defaults", not mism and len(stated) >= 20,
+           expected="every parameter's default equals the default its docstring states", found="ok" if not mism else "; ".join(mism[:3]) + f" ({len(stated)} docstrings read)",
+           clause="every documented model parameter ... takes exactly the given value (and the documented default otherwise)", key="documented-defaults")
     n = 0
     for prm, dflt in sorted(defaults.items()):
         typ = TYPES.get(prm, type(dflt))
